@@ -25,11 +25,12 @@ def value(opt, kind, src, variant, defaults):
         return (not d) if flip else d
     if kind == "str":
         # two words: a string value must arrive in one piece, whatever it contains
-        return "%s_%s w2" % (src, short(opt))
+        # (a command-line value may begin with '@' like any other character)
+        return ("@" if src == "cli" else "") + "%s_%s w2" % (src, short(opt))
     if kind == "list":
-        return ["%s_pat1" % src, "%s_pat2" % src]
+        return [("@" if src == "cli" else "") + "%s_pat1" % src, "%s_pat2" % src]
     if kind == "path":
-        return "%s_out" % src
+        return ("@" if src == "cli" else "") + "%s_out" % src
     if kind == "strseq":
         return {"sfile": ["=", "-"], "user": ["~", "^", "+"], "cli": ["*"]}[src]
     raise ValueError(kind)
